@@ -20,15 +20,15 @@ ID = 'C08'
 COMPONENTS = ['compare']
 THEOREMS = [
     'C08_utf8_order_is_cp_order', 'C08_str_compare_is_cp_order', 'C08_str_eqb_is_eq', 'C08_f64_order_laws',
-    'C08_f64_eqb_iff_same_json_number', 'C08_equals_total', 'C08_equals_iff_same_json', 'C08_equals_refl',
-    'C08_equals_sym', 'C08_equals_trans', 'C08_ne_is_negb_eq', 'C08_std_equals_agrees',
-    'C08_primitive_equals_agrees', 'C08_primitive_equals_non_primitive', 'C08_compare_total',
-    'C08_compare_trichotomy', 'C08_compare_trichotomy_gen', 'C08_compare_eq_iff_equals', 'C08_compare_antisym',
-    'C08_compare_trans', 'C08_compare_le_trans', 'C08_compare_trans_eq', 'C08_le_ge_consistent',
-    'C08_compare_array_lex', 'C08_std_compare_agrees', 'C08_std_compare_array_agrees',
-    'C08_compare_unordered_errors', 'C08_equals_no_panic', 'C08_compare_no_panic', 'C08_equals_early_exit',
-    'C08_equals_length_first', 'C08_equals_object_early_exit', 'C08_equals_hidden_never_forced',
-    'C08_compare_early_exit', 'C08_compare_prefix_early_exit', 'C08_nonvacuous',
+    'C08_f64_eqb_iff_same_json_number', 'C08_f64_compare_is_value_order', 'C08_equals_total',
+    'C08_equals_iff_same_json', 'C08_equals_refl', 'C08_equals_sym', 'C08_equals_trans', 'C08_equals_trans_lazy',
+    'C08_ne_is_negb_eq', 'C08_std_equals_agrees', 'C08_primitive_equals_agrees',
+    'C08_primitive_equals_non_primitive', 'C08_compare_total', 'C08_compare_trichotomy',
+    'C08_compare_trichotomy_gen', 'C08_compare_eq_iff_equals', 'C08_compare_antisym', 'C08_compare_trans',
+    'C08_compare_le_trans', 'C08_compare_trans_eq', 'C08_le_ge_consistent', 'C08_compare_array_lex',
+    'C08_std_compare_agrees', 'C08_std_compare_array_agrees', 'C08_compare_unordered_errors', 'C08_equals_no_panic',
+    'C08_compare_no_panic', 'C08_equals_early_exit', 'C08_equals_length_first', 'C08_equals_object_early_exit',
+    'C08_equals_hidden_never_forced', 'C08_compare_early_exit', 'C08_compare_prefix_early_exit', 'C08_nonvacuous',
 ]
 ALLOWED_AXIOMS = set()
 TRANSLATORS = []
@@ -849,7 +849,7 @@ def check(run):
     run.add_proof(pres, THEOREMS)
     impl_exe = vlib.build_harness()
     model_exe = vlib.build_model('compare')
-    n = 450 if run.tier == 'quick' else 9000
+    n = 450 if run.tier == 'quick' else 6000
     groups = corpus_groups(rng)
     run.count('corpus_groups', len(groups))
     for i in range(n):
